@@ -377,6 +377,16 @@ def gen_plan(rng):
             prior.append({"o": "interrupt", "at": rng.choice(
                 (rng.randint(1, 60), rng.randint(1, 600), rng.randint(1, 2500)))})
             prior.append({"o": "other", "probe": gen_probe_op(rng, trs_pool)})
+    for op_ in probe:
+        if op_["p"] in ("trslist", "tractlist", "sort_i") and rng.random() < 0.5:
+            # the same list operation (same sort key) on other, smaller data
+            twin_ = _same_settings(rng, op_)
+            if "items" in twin_:
+                twin_["items"] = [f"{rng.randint(1, 9)}n{rng.randint(1, 9)}w"
+                                  f"{rng.randint(1, 9):02d}"
+                                  for _ in twin_["items"]]
+            prior.insert(rng.randint(0, len(prior)),
+                         {"o": "other", "probe": twin_})
     if shadow is not None and "__wrap_mc" in shadow:
         # ... while MasterConfig is toggled, and restored afterwards
         prior += [{"o": "mc_set", "ns": shadow["__wrap_mc"]["ns"],
